@@ -2,6 +2,8 @@
 
 
 def classify(case):
+    """no recorded defect: the "." / ".." primary-key defect of the filesystem backstore found by this check is repaired
+    in /repo (commit 2f752eb, KNOWN_FINDINGS `fixed:`); every disagreement is a violation."""
     return None
 
 
@@ -23,7 +25,7 @@ SPEC = dict(
           "test-only-2; test-only-seq: sequence-forming, max format 2; account), 3 ids per key component, revisions 0..5, "
           "formats 0..max (1 in 8 above the supported format, with revisions of their own so that no ties arise), gets with "
           "maxFormat 0..max+1, searches with wildcard components, sequence lookups with after -1..6 and maxFormat 0..3, account "
-          "adds clashing with the trusted / predefined accounts. Compared per operation and per implementation: "
+          "adds clashing with the trusted / predefined accounts. Key values: one third of the random keys and a dedicated sweep use 60 special values (each of `$ & + = : @ space , ; % ? # * [ ] \\ ! ' ( ) { } | < > ^ backquote doublequote`, strings that are escapes of each other such as `a+b` / `a b` / `a%2Bb` / `a%20b`, upper/lower case, non-ASCII, `...`, `active`, `active.1`, `0:a`) as the key of a one-key type, as either component of a two-part key and as the sequence key; `.` and `..` in six histories of their own (regression cases of the repaired defect, judged like all others); plus `esc` cases: the directory name the filesystem backstore creates for each special value and for 60 random key values, compared with the escape model. After every history each stored key is looked up by Get, by Search with all primary headers, with each one left out, with none, and (sequence-forming) by SequenceMemberAfter, on all three implementations. Compared per operation and per implementation: "
           "accepted / revision error / unsupported format / clash / found(tag set) / not found / other error. Non-trivial = at "
           "least two accepted and one refused add."),
     exhaustive=dict(quick=True, thorough=True),
@@ -37,6 +39,8 @@ SPEC = dict(
         "C19_highest_added is stated for histories whose formats are supported (what Database.Add enforces); assertions with an unsupported format can only be put into a backstore directly, where a later put of the same format may replace a higher revision (modelled and tied, excluded from the theorem)",
         "equal revisions stored under two formats (only reachable through such direct puts) make the memory backstore's answer depend on Go map order; the generator avoids that tie",
         "lookups of the database's own trusted/predefined entries are not exercised (only the clash rule is)",
-        "PARTIAL: FindMany/Search is modelled and tied, no theorem; stacked databases (WithStackedBackstore) are not modelled",
+        "Search/FindMany: C19_search_sound, C19_search_complete, C19_search_after_put; C19_search_any_injective_escape: searching by escaped file names equals the model search for EVERY injective escape function (the real url.QueryEscape is validated against it on the character sweep)",
+        "the escape of the filesystem backstore is modelled (query_escape, escape_comp) and tied: for every special value and 60 random strings the driver stores a one-key assertion in a fresh filesystem backstore and reads the name of the directory that was created; C19_escape_injective / C19_escape_safe / C19_distinct_keys_distinct_files are proved for all byte strings; filepath.Join is modelled by clean_path (`.` dropped, `..` pops)",
+        "PARTIAL: stacked databases (WithStackedBackstore) are not modelled",
     ],
 )
